@@ -321,6 +321,7 @@ def flex_layout(context, box, bottom_space, skip_stack, containing_block, page_i
         hypothetical_main_size = sum(
             child.hypothetical_main_size + child.main_outer_extra
             for index, child in line)
+        hypothetical_main_size += (len(line) - 1) * main_gap
         if hypothetical_main_size < available_main_space:
             flex_factor_type = 'grow'
         else:
